@@ -24,7 +24,7 @@ META = {
         "oriented members of the three explicit chains of simple permutations (parallel alternation, two wedge "
         "simples), boundary classes (the basis of each oriented chain's closure, derived by brute force from the chain, exact or tweaked by one element), one-point deletions of chain members (so that classes lie between families), monotone pairs and pin "
         "permutations; every order/repetition variant and the eight symmetric images; exhaustive: all bases of one "
-        "permutation of length <= 4 and all pairs of length <= 3. Oracle: (i) all entry points agree and are "
+        "permutation of length <= 4, all pairs of length <= 3 and all pairs (length 3, length 4). Oracle: (i) all entry points agree and are "
         "invariant; (ii) verdict 'infinite' => simples of Av(B) exist in one of every two consecutive lengths 4..N "
         "(Schmerl-Trotter; N = 8 quick, 9 thorough; enumeration via Av, simplicity via the reference interval test); "
         "(iii) verdict 'finite' => every oriented explicit chain is hit by a basis element, and the words of M "
@@ -273,11 +273,16 @@ def shard_exhaustive(acc, shard, nshards, nmax):
     singles = [list(p) for p in ref.perms_upto(4, 2)]
     small = [list(p) for p in ref.perms_upto(3, 2)]
     cases = [[p] for p in singles] + [[a, b] for a, b in itertools.combinations(small, 2)]
+    # every pair (length 3, length 4): classes where one short pattern leaves exactly one family alive
+    threes = [list(p) for p in ref.perms(3)]
+    fours = [list(p) for p in ref.perms(4)]
+    cases += [[a, b] for a in threes for b in fours]
     # the 24 boundary classes: closure of each oriented explicit chain (basis derived from the chain)
     cases = [[list(p) for p in closure_basis(key, 4)] for key in sorted(chains())] + cases
     for perms in cases:
         if i % nshards == shard:
-            acc.record("basis", check_basis, {"perms": perms, "nmax": nmax, "symmetries": False})
+            big = len(perms) == 2 and max(len(p) for p in perms) == 4
+            acc.record("basis", check_basis, {"perms": perms, "nmax": min(nmax, 7) if big else nmax, "symmetries": False})
         i += 1
 
 
